@@ -272,7 +272,7 @@ fn gen_c04(sink: &mut Sink, tier: &str, seed: u64) {
 fn gen_typed(sink: &mut Sink, tier: &str, seed: u64, want: &str) {
     let mut rng = StdRng::seed_from_u64(seed ^ 0xc01);
     crate::types::THOROUGH.store(tier == "thorough", core::sync::atomic::Ordering::Relaxed);
-    let n = match (tier, want) { ("thorough", "mut") => 120, ("thorough", _) => 400, (_, "mut") => 12, _ => 40 };
+    let n = match (tier, want) { ("thorough", "mut") => 120, ("thorough", "cross") => 60, ("thorough", _) => 400, (_, "mut") => 12, (_, "cross") => 10, _ => 40 };
     crate::types::exercise_all(&mut rng, sink, n, want);
 }
 
@@ -546,6 +546,8 @@ pub fn cmd_gen(args: &[String]) -> i32 {
         "c01" => { gen_typed(&mut sink, tier, seed, "rt"); gen_typed(&mut sink, tier, seed + 1, "alt") }
         #[cfg(all(feature = "std", feature = "half"))]
         "c07" => { gen_typed(&mut sink, tier, seed, "rt"); gen_toklen(&mut sink, tier, seed) }
+        #[cfg(feature = "std")]
+        "c04x" => gen_typed(&mut sink, tier, seed, "cross"),
         #[cfg(feature = "std")]
         "c01mut" => { gen_typed(&mut sink, tier, seed, "mut"); for e in crate::drops::events() { sink.put(e) } gen_sizes(&mut sink) }
         #[cfg(all(feature = "alloc", feature = "half"))]
